@@ -2305,3 +2305,16 @@ PROPS["C01"]["partial"] = [p for p in PROPS["C01"]["partial"] if not p.startswit
     "grammatical literal by c01_range_clause_no_fuel (from c14_no_fuel_literal / c14_no_fuel_roundtrip), and c01_accepts_iff_no_fuel "
     "restates the iff with a range clause that mentions only outOfRange. The clause is still the model's conversion (Model.Num), not the "
     "exact value: that relation is c01_range_fr / c01_range_default_band"]
+
+# ---- C04: c04_reparse in the default build without the float hypothesis (branch wip-v6)
+PROPS["C04"]["lean_targets"] = PROPS["C04"]["lean_targets"][:-1] + ["SJ.Props.C04ReparseShort"] + PROPS["C04"]["lean_targets"][-1:]
+PROPS["C04"]["level_text"] += (
+    " Reparse, default build (Props/C04ReparseShort.lean): c04_reparse_default_short - without float_roundtrip / arbitrary_precision, under "
+    "RyuShortest, every value the parser returns whose floats satisfy ShortFloats is given back by serialise-then-parse, both formatters and "
+    "every pair of sources, with no FloatsRoundTrip hypothesis (c04_reparse instantiated with c04_floats_roundtrip_short).")
+PROPS["C04"]["partial"] = [
+    ("c04_reparse: serialise-then-parse of a parsed value gives it back under the same float hypothesis FloatsRoundTrip (none under "
+     "arbitrary_precision: c04_reparse_ap; in the default build it is discharged for parsed values whose floats print as short literals - "
+     "ShortFloats - from RyuShortest alone: c04_reparse_default_short; for the other floats of the default build it remains a hypothesis); "
+     "that parsed values are well-formed is now hypothesis-free (c04_wf_of_parse)")
+    if x.startswith("c04_reparse: serialise-then-parse") else x for x in PROPS["C04"]["partial"]]
